@@ -5,11 +5,11 @@
     more do not exist).  The heap scratch buffers (malloc) are not modelled here (C19); the scratch capacity
     handed to carquet_delta_encode_int32 is. *)
 From Coq Require Import NArith ZArith List Bool.
-From Carquet Require Import Base.Res Enc.DeltaBits Enc.DeltaModel.
+From Carquet Require Import Gen.Enums_gen Base.Res Enc.DeltaBits Enc.DeltaModel.
 Import ListNotations.
 Local Open Scope N_scope.
 
-Definition ERR_INVALID_ARGUMENT : Z := 1%Z.
+Definition ERR_INVALID_ARGUMENT : Z := E_CARQUET_ERROR_INVALID_ARGUMENT.
 
 (* 40 + (num_values / 128 + 1) * (10 + 4 + 128 * 4) *)
 Definition lengths_capacity (n : N) : N := 40 + (n / 128 + 1) * (10 + 4 + 128 * 4).
